@@ -166,7 +166,8 @@ impl<'a> Rec<'a> {
         };
         let line = out.put(
             shard,
-            &json!({"ev":"ctx","ctx":c,"built":built,"err":err,"kind":kind,"pf":pf}),
+            &json!({"ev":"ctx","ctx":c,"built":built,"err":err,"kind":kind,"pf":pf,
+                    "pfi": match s { Ok(s) => prefilter_info(s), Err(_) => json!({"variant":"none","bytes":[]}) }}),
         );
         Rec { out, shard, ctx_line: line, n_events: 0, pending: vec![] }
     }
@@ -174,6 +175,18 @@ impl<'a> Rec<'a> {
     pub fn put(&mut self, v: Value) {
         self.pending.push(v);
         self.n_events += 1;
+    }
+    /// like `flush`, for calls whose validation needs only the span (work
+    /// bounds on long haystacks): the haystack is not written
+    pub fn flush_nohay(&mut self, haylen: usize, sp: (usize, usize)) {
+        if self.pending.is_empty() {
+            return;
+        }
+        let calls = std::mem::take(&mut self.pending);
+        self.out.put(
+            self.shard,
+            &json!({"ev":"multi","c":self.ctx_line,"hay":[],"haylen":haylen,"s":sp.0,"e":sp.1,"calls":calls}),
+        );
     }
     /// write all pending calls as one line sharing haystack and span
     pub fn flush(&mut self, hay: &[u8], sp: (usize, usize)) {
@@ -327,6 +340,189 @@ pub fn ev_recipe(r: &mut Rec, s: &Searcher, hay: &[u8]) {
             Ok((om2v(&rec), om2v(&built)))
         }));
         r.put(json!(["recipe", false, false, out, res, 0]));
+    }
+}
+
+
+/// Structured view of `Automaton::prefilter()`'s Debug output (data
+/// handling only: which variant was built and with which bytes).
+pub fn prefilter_info(s: &Searcher) -> Value {
+    let d = s.prefilter_debug();
+    if d.is_empty() || d == "none" {
+        return json!({"variant": "none", "bytes": []});
+    }
+    let variant = ["StartBytesOne", "StartBytesTwo", "StartBytesThree", "RareBytesOne",
+        "RareBytesTwo", "RareBytesThree", "Memmem", "Packed"]
+        .iter()
+        .find(|v| d.contains(&format!("{} ", v)) || d.contains(&format!("{}(", v)))
+        .copied()
+        .unwrap_or("unknown");
+    let mut bytes = vec![];
+    for key in ["byte1: ", "byte2: ", "byte3: "] {
+        if let Some(i) = d.find(key) {
+            let rest = &d[i + key.len()..];
+            let num: String = rest.chars().take_while(|c| c.is_ascii_digit()).collect();
+            if let Ok(n) = num.parse::<u32>() {
+                bytes.push(n);
+            }
+        }
+    }
+    let kind = if variant.starts_with("Start") { "start" } else if variant.starts_with("Rare") { "rare" }
+        else if variant == "Memmem" { "memmem" } else if variant == "Packed" { "packed" } else { "unknown" };
+    json!({"variant": kind, "name": variant, "bytes": bytes})
+}
+
+/// one direct probe of the real prefilter
+pub fn ev_probe(r: &mut Rec, s: &Searcher, hay: &[u8], sp: (usize, usize)) {
+    if let Searcher::Low(a) = s {
+        let g = guarded(|| {
+            with_aut!(a, a => a.prefilter().map(|p| {
+                match p.find_in(hay, aho_corasick::Span { start: sp.0, end: sp.1 }) {
+                    aho_corasick::automaton::Candidate::None => json!(["none"]),
+                    aho_corasick::automaton::Candidate::Match(m) => json!(["match", m2v(&m)]),
+                    aho_corasick::automaton::Candidate::PossibleStartOfMatch(i) => json!(["possible", i]),
+                }
+            }))
+        });
+        match g {
+            Ok(Some(v)) => r.put(json!(["probe", false, false, "ok", v, 0])),
+            Ok(None) => {}
+            Err(p) => r.put(json!(["probe", false, false, "panic", p, 0])),
+        }
+    }
+}
+
+/// pattern lists built to activate each prefilter variant
+pub fn prefilter_lists(rg: &mut StdRng, which: usize) -> Pats {
+    let letters = b"abcdefghijklmnopqrstuvwxyz";
+    let rare = [b'Z', b'Q', b'#', 0xFEu8, b'~'];
+    let mut word = |rg: &mut StdRng, lo: usize, hi: usize| -> Vec<u8> {
+        (0..rg.gen_range(lo..=hi)).map(|_| letters[rg.gen_range(0..letters.len())]).collect()
+    };
+    match which % 6 {
+        // a single pattern: memmem
+        0 => vec![word(rg, 1, 8)],
+        // <= 3 distinct first bytes: start bytes
+        1 => {
+            let firsts: Vec<u8> = (0..rg.gen_range(1..=3)).map(|_| letters[rg.gen_range(0..6)]).collect();
+            (0..rg.gen_range(2..=6)).map(|_| { let mut w = vec![firsts[rg.gen_range(0..firsts.len())]]; w.extend(word(rg, 0, 5)); w }).collect()
+        }
+        // many first bytes but every pattern contains one of <= 3 rare bytes
+        2 => {
+            let rs: Vec<u8> = (0..rg.gen_range(1..=3)).map(|_| rare[rg.gen_range(0..rare.len())]).collect();
+            (0..rg.gen_range(4..=9)).map(|_| {
+                let mut w = word(rg, 0, 6);
+                let pos = rg.gen_range(0..=w.len());
+                w.insert(pos, rs[rg.gen_range(0..rs.len())]);
+                w
+            }).collect()
+        }
+        // a rare byte far from the start (large offsets, incl. > 255 bytes long: rare disabled)
+        3 => {
+            let r0 = rare[rg.gen_range(0..rare.len())];
+            (0..rg.gen_range(4..=6)).map(|i| {
+                let n = [3usize, 40, 200, 254, 255, 300][rg.gen_range(0..6)];
+                let mut w: Vec<u8> = (0..n).map(|j| letters[(i * 7 + j) % letters.len()]).collect();
+                w.push(r0);
+                w.extend(word(rg, 0, 3));
+                w
+            }).collect()
+        }
+        // >= 4 first bytes, min length >= 2, few patterns: packed (leftmost kinds)
+        4 => (0..rg.gen_range(4..=12)).map(|i| { let mut w = vec![letters[(i * 3) % letters.len()]]; w.extend(word(rg, 1, 6)); w }).collect(),
+        // mixed-case letters (for case-insensitive searchers)
+        _ => (0..rg.gen_range(1..=4)).map(|_| word(rg, 1, 5).iter().map(|&b| if rg.gen_bool(0.5) { b.to_ascii_uppercase() } else { b }).collect()).collect(),
+    }
+}
+
+
+/// C19: one search with the work counters (hooks) around it
+pub fn ev_work_find(r: &mut Rec, s: &Searcher, c: &Ctx, hay: &[u8], sp: (usize, usize), an: bool, early: bool) {
+    let limit = 8 * (hay.len() as u64) + 256;
+    aho_corasick::verif::reset_counters(limit);
+    let g = guarded(|| s.try_find(mk_input(hay, sp.0, sp.1, an, early)).map(|m| om2v(&m)));
+    let (t, fl) = aho_corasick::verif::counters();
+    aho_corasick::verif::reset_counters(u64::MAX);
+    let (out, res) = outcome(g);
+    r.put(json!(["work", an, early, out, {"trans": t, "fails": fl, "res": res},
+                 {"api": "find", "dfa": c.repr.contains("dfa"), "pre": c.pre}]));
+}
+
+/// C19: a whole stepwise overlapping search (cumulative counters)
+pub fn ev_work_overlap(r: &mut Rec, s: &Searcher, c: &Ctx, hay: &[u8], sp: (usize, usize), an: bool) {
+    let limit = 8 * (hay.len() as u64) + 256;
+    aho_corasick::verif::reset_counters(limit);
+    let g = guarded(|| {
+        let input = mk_input(hay, sp.0, sp.1, an, false);
+        let mut st = OverlappingState::start();
+        let mut n = 0usize;
+        loop {
+            s.try_overlapping_step(&input, &mut st)?;
+            if st.get_match().is_none() {
+                break;
+            }
+            n += 1;
+        }
+        Ok::<usize, MatchError>(n)
+    });
+    let (t, fl) = aho_corasick::verif::counters();
+    aho_corasick::verif::reset_counters(u64::MAX);
+    let (out, res) = outcome(g);
+    r.put(json!(["work", an, false, out, {"trans": t, "fails": fl, "res": res},
+                 {"api": "overlap", "dfa": c.repr.contains("dfa"), "pre": c.pre}]));
+}
+
+/// adversarial pattern lists / haystacks for the work bound
+pub fn work_cases(rg: &mut StdRng, which: usize, big: bool) -> (Pats, Vec<Vec<u8>>) {
+    let n = if big { 4096 } else { 600 };
+    let k = if big { 64 } else { 24 };
+    match which % 5 {
+        0 => {
+            // a^j b for j = 1..k, haystack a^n with rare b's
+            let pats: Pats = (1..=k).map(|j| { let mut p = vec![b'a'; j]; p.push(b'b'); p }).collect();
+            let mut h = vec![b'a'; n];
+            for i in (0..n).step_by(97) { h[i] = b'c'; }
+            let mut h2 = vec![b'a'; n];
+            for i in (k + 1..n).step_by(k + 3) { h2[i] = b'b'; }
+            (pats, vec![h, h2])
+        }
+        1 => {
+            // nested suffixes of one long word, haystack = word without its last byte, repeated
+            let w: Vec<u8> = (0..k).map(|i| b'a' + ((i * i + 3 * i) % 7) as u8).collect();
+            let pats: Pats = (0..w.len()).map(|i| { let mut p = w[i..].to_vec(); p.push(b'!'); p }).collect();
+            let mut h = vec![];
+            while h.len() < n { h.extend_from_slice(&w); }
+            (pats, vec![h])
+        }
+        2 => {
+            // deep failure chain: (ab)^k c, haystack (ab)^m d ...
+            let mut p = vec![];
+            for _ in 0..k { p.extend_from_slice(b"ab"); }
+            p.push(b'c');
+            let mut p2 = p.clone();
+            p2.pop();
+            p2.push(b'e');
+            let mut h = vec![];
+            while h.len() < n {
+                for _ in 0..(k - 1) { h.extend_from_slice(b"ab"); }
+                h.push(b'd');
+            }
+            let mut h2 = vec![];
+            while h2.len() < n { h2.extend_from_slice(b"ab"); }
+            (vec![p, p2, b"b".to_vec()], vec![h, h2])
+        }
+        3 => {
+            // case-insensitive trie with long shared prefixes
+            let base: Vec<u8> = (0..k).map(|i| if i % 2 == 0 { b'x' } else { b'Y' }).collect();
+            let pats: Pats = (1..=base.len()).step_by(3).map(|j| { let mut p = base[..j].to_vec(); p.push(b'Q'); p }).collect();
+            let h: Vec<u8> = (0..n).map(|i| if i % 2 == 0 { b'X' } else { b'y' }).collect();
+            (pats, vec![h])
+        }
+        _ => {
+            let pats = gen::random_pats(rg, 10, 8);
+            let hs = (0..3).map(|_| gen::random_hay(rg, &pats, false, if big { 1000 } else { 200 })).collect();
+            (pats, hs)
+        }
     }
 }
 
@@ -732,6 +928,105 @@ pub fn run(out_prefix: &str, shards: usize, family: &str, seed: u64, scale: usiz
                         all_flavours(r, s, &c, f, h, (0, h.len()));
                     }
                 });
+            }
+        }
+        // prefilters (C05): which variant was built (admissibility), direct
+        // probes (soundness), and on/off differential on long haystacks
+        "prefilter" => {
+            let mut rg = gen::rng(seed, 0xCA11_0007);
+            let maxhay = if scale > 1 { 300 } else { 120 };
+            for i in 0..(36 * scale) {
+                let pats = prefilter_lists(&mut rg, i);
+                let mk = f.mks[rg.gen_range(0..f.mks.len())];
+                let ci = i % 6 == 5 || rg.gen_range(0..5) == 0;
+                let hays: Vec<Vec<u8>> =
+                    (0..8).map(|_| gen::random_hay(&mut rg, &pats, ci, maxhay)).collect();
+                let spans: Vec<(usize, usize)> =
+                    hays.iter().map(|h| gen::random_span(&mut rg, h.len())).collect();
+                // low-level with prefilter: probes + searches
+                for repr in ["nc", "c", "dfa"] {
+                    let mut c = Ctx::new(&pats, mk, repr);
+                    c.ci = ci;
+                    c.pre = true;
+                    with_ctx(&mut out, &mut stats, &c, &mut |r, s| {
+                        for (h, &sp) in hays.iter().zip(spans.iter()) {
+                            ev_probe(r, s, h, (0, h.len()));
+                            all_flavours(r, s, &c, f, h, (0, h.len()));
+                            r.flush(h, (0, h.len()));
+                            if sp.0 <= sp.1 {
+                                ev_probe(r, s, h, sp);
+                            }
+                            all_flavours(r, s, &c, f, h, sp);
+                        }
+                    });
+                }
+                // top-level on/off differential
+                for pre in [true, false] {
+                    let mut c = Ctx::new(&pats, mk, ["top-auto", "top-nc", "top-c", "top-dfa"][i % 4]);
+                    c.ci = ci;
+                    c.pre = pre;
+                    with_ctx(&mut out, &mut stats, &c, &mut |r, s| {
+                        for (h, &sp) in hays.iter().zip(spans.iter()) {
+                            all_flavours(r, s, &c, f, h, (0, h.len()));
+                            all_flavours(r, s, &c, f, h, sp);
+                        }
+                    });
+                }
+            }
+        }
+        // bounded work (C19): counters of transitions and failure steps
+        "work" => {
+            let mut rg = gen::rng(seed, 0xCA11_0008);
+            // small exhaustive part (exact counts are compared with the model)
+            let hays = gen::all_hays(b"ab", 4);
+            for (pi, pats) in gen::family(b"ab", 2, 3).iter().enumerate() {
+                if pi % (if scale > 1 { 2 } else { 6 }) != 0 {
+                    continue;
+                }
+                for &mk in &f.mks {
+                    for repr in ["nc", "c", "dfa"] {
+                        let c = Ctx::new(pats, mk, repr);
+                        with_ctx(&mut out, &mut stats, &c, &mut |r, s| {
+                            for h in &hays {
+                                for an in [false, true] {
+                                    ev_work_find(r, s, &c, h, (0, h.len()), an, false);
+                                }
+                                if mk == "std" {
+                                    ev_work_overlap(r, s, &c, h, (0, h.len()), false);
+                                }
+                                r.flush(h, (0, h.len()));
+                            }
+                        });
+                    }
+                }
+            }
+            for i in 0..(10 * scale) {
+                let (pats, hays) = work_cases(&mut rg, i, scale > 1);
+                for &mk in &f.mks {
+                    for repr in ["nc", "c", "dfa", "top-auto"] {
+                        for pre in [false, true] {
+                            let mut c = Ctx::new(&pats, mk, repr);
+                            c.ci = i % 5 == 3;
+                            c.pre = pre;
+                            c.dd = if i % 2 == 0 { -1 } else { 0 };
+                            with_ctx(&mut out, &mut stats, &c, &mut |r, s| {
+                                for h in &hays {
+                                    let sp = (rg.gen_range(0..=h.len() / 4), h.len() - rg.gen_range(0..=h.len() / 4));
+                                    for an in [false, true] {
+                                        ev_work_find(r, s, &c, h, sp, an, false);
+                                        ev_work_find(r, s, &c, h, sp, an, true);
+                                    }
+                                    if mk == "std" {
+                                        ev_work_overlap(r, s, &c, h, sp, false);
+                                    }
+                                    // long haystacks are not repeated in the trace: only the
+                                    // span bounds matter for the work bound
+                                    r.flush_nohay(h.len(), sp);
+                                }
+                            });
+                        }
+                    }
+                }
             }
         }
         other => panic!("unknown calls family {}", other),
